@@ -12,9 +12,12 @@ optimised, frozen, cached — `interpreter.Subinclude`).
 * refuted for the pinned code by three witnesses, one per root cause (known findings):
   `Freeze` keeps the unfrozen elements, the optimiser's constant objects are shared and mutable, and `+` on a
   frozen list writes into spare capacity of the shared array;
-* what holds for all inputs: every writing primitive refuses a frozen wrapper; and a `Freeze` that wraps the
-  frozen copy (the one-line fix) returns values that are frozen all the way down, without spare capacity, in
-  cells of their own (`C17_freeze_fixed_is_deep`) — with today's `Freeze` that fails already for `[[1, 2]]`.
+* what holds for all inputs: everything a subinclude hands out is a frozen wrapper at the top level
+  (`C17_exports_frozen`), every writing primitive refuses a frozen wrapper (`C17_toplevel_partial`), `+` on a list
+  without spare capacity never writes (`C17_add_exact_cap_never_writes`), and today's `Freeze` is complete for flat
+  lists without spare capacity (`C17_freeze_today_flat`); a `Freeze` that wraps the frozen copy (the one-line fix)
+  returns values that are frozen all the way down, without spare capacity, in cells of their own
+  (`C17_freeze_fixed_is_deep`) — with today's `Freeze` that fails already for `[[1, 2]]`.
 -/
 namespace PlzVerif.Props.C17
 open PlzVerif.Asp PlzVerif.Generated
@@ -82,9 +85,57 @@ theorem C17_main_fails : ¬ Independent := by
 
 /-! ### What holds -/
 
+/-- **What a subinclude hands out is frozen at the top level**: after `scope.Freeze()` (the step `subinclude`
+    performs before it caches and copies the scope) every variable that holds a list or a dict holds a frozen
+    wrapper — every heap, every scope.  (Not the elements: `C17_witness_freeze_keeps_elements`.) -/
+theorem C17_exports_frozen (sc : Nat) (st st' : St) (u : Unit) (h : (freezeScope F sc).run st = .ok (u, st')) :
+    ∀ s', st'.scopes[sc]? = some s' → ∀ e ∈ s'.vars, topFrozen e.2 = true :=
+  freezeScope_exports_frozen F sc st st' u h
+
+/-- **Today's `Freeze` is complete for flat lists**: a list of ints / strings / bools / None without spare
+    capacity freezes to a wrapper through which nothing below can be reached or written, and the heap is not
+    touched. -/
+theorem C17_freeze_today_flat (n : Nat) (fz : Bool) (arr off len : Nat) (st st' : St) (v' : Val) (l : List Val)
+    (hl : st.arrays[arr]? = some l) (hflat : ((l.drop off).take len).all scalar = true)
+    (h : (freeze F (n + 2) (.list fz arr off len len)).run st = .ok (v', st')) :
+    st' = st ∧ v' = .list true arr off len len ∧ deepFrozen st' (n + 2) v' = true :=
+  freeze_today_flat F (by decide) n fz arr off len st st' v' l hl hflat h
+
+-- the hypotheses are met by the list [1, 2, 3]
+example : ((freeze F 5 (.list false 1 0 3 3)).run { arrays := [[], [.int 1, .int 2, .int 3]] }).toOption.map (·.1)
+    = some (.list true 1 0 3 3) := by decide +kernel
+
+/-- **`+` never writes when there is no spare capacity**: the sum of a list whose capacity is its length (frozen
+    or not, either operand) only extends the heap.  (With spare capacity it writes into the shared array:
+    `C17_witness_add_writes_spare_capacity`.) -/
+theorem C17_add_exact_cap_never_writes (F' : Facts) (fz fz2 : Bool) (arr off len arr2 off2 len2 cap2 : Nat)
+    (st st' : St) (v : Val)
+    (h : (binOp F' .add (.list fz arr off len len) (.list fz2 arr2 off2 len2 cap2)).run st = .ok (v, st')) :
+    Ext st st' := by
+  simp only [binOp] at h
+  split at h
+  · exact absurd h (fail_run _ _ _)
+  · rw [run_bind_ok] at h; obtain ⟨ys, s1, h1, h⟩ := h
+    have := (elems_run h1).1; subst this
+    exact listAppend_exact_cap F' arr off len ys _ _ v h
+
+/-- `D = {"k": 1}` exported; a package calls `D.setdefault("j", 2)`. -/
+def wSetdefault : String × Program :=
+  ("b", [sub, .expr (.method (.name "D") "setdefault" [(none, .str "j"), (none, .int 2)])])
+
+def errorOf {α : Type} : Except String α → Option String
+  | .error e => some e
+  | .ok _ => none
+
+set_option maxRecDepth 100000 in
+/-- `setdefault` on an imported dict is refused (one sample; the method dispatch is part of the interpreter). -/
+theorem C17_sample_setdefault_refused :
+    errorOf (runPackages F 60 [("//d:d", [.assign "D" (.dict [(.str "k", .int 1)])])] [wSetdefault])
+      = some "dict is immutable" := by
+  decide +kernel
+
 /-- **Partial form (top level)**: through a frozen wrapper nothing can be written — index assignment fails for a
-    frozen list and a frozen dict, and the in-place builtins `sorted` / `reversed` refuse a frozen list — in
-    every state. -/
+    frozen list and a frozen dict, and `sorted` / `reversed` refuse a frozen list — in every state. -/
 theorem C17_toplevel_partial (arr off len cap d : Nat) (idx v : Val) (st : St) :
     (indexAssign (.list true arr off len cap) idx v).run st = .error "list is immutable" ∧
     (indexAssign (.dict true d) idx v).run st = .error "dict is immutable" ∧
